@@ -49,9 +49,9 @@ theorem readRawMsgFromTCP_eq (c : Stream) : Gen.readRawMsgFromTCP c = readRaw c 
   | ok p =>
     obtain ⟨h, c'⟩ := p
     simp only
-    have hle : (Go.getU16 h ≤ (12 : UInt16)) ↔ announced h ≤ 12 := by
-      rw [UInt16.le_iff_toNat_le, getU16_announced]; rfl
-    by_cases ha : announced h ≤ 12
+    have hle : (Go.getU16 h < (12 : UInt16)) ↔ announced h < 12 := by
+      rw [UInt16.lt_iff_toNat_lt, getU16_announced]; rfl
+    by_cases ha : announced h < 12
     · simp [hle, ha]
     · simp only [hle, ha, decide_false, if_false, Bool.false_eq_true]
       have hm : (Go.make ((Go.getU16 h).toNat : Int)).length = announced h := by
